@@ -15,9 +15,24 @@
      monitor may emit once its input reaches e are the same whatever arrives
      in later update() calls and however the data up to e was cut.
    - C05_past_now: for past specifications (horizon 0) this is the value at
-     the knowledge frontier itself. *)
+     the knowledge frontier itself.
+
+   Proved for the implementation layer of every binary operation (the carry-over
+   buffers themselves; model DenseOnlineMerge.v = online/intersection.py and the
+   update() wrapper of and_operation.py, compared with the code on every run by
+   the `binrun` / `oisect` streams of harness/c05.py; finite integer stamps):
+   - C05_binary_merge: on strictly increasing non-empty inputs the online merge
+     never raises; out ++ [last] has non-decreasing stamps inside the common
+     domain [t0, F] and denotes f (den s1 t) (den s2 t) at every tick of it;
+     the remainders are non-empty suffixes that still denote the inputs from F on.
+   - C05_binary_run: feeding the two signals in any sequence of batches (a batch
+     may repeat the last sample already sent, with any value: update() drops it)
+     yields outputs whose concatenation has non-decreasing stamps and denotes
+     f (den s1 t) (den s2 t) on [t0, F].
+   - C05_binary_chunking: two chunkings of the same two signals never disagree
+     at any instant of the common domain. *)
 From Coq Require Import List ZArith Lia.
-From RV Require Import Val Syntax Rho Dense DenseSem DenseLaws ExtZ.
+From RV Require Import Val Syntax Rho Dense DenseSem DenseLaws ExtZ DenseMerge DenseMergeCorrect DenseOnlineMerge DenseOnlineMergeCorrect.
 Import ListNotations.
 Local Open Scope Z_scope.
 
@@ -43,6 +58,60 @@ Proof.
   apply (rhoZ_extend AR pk W1 W2 tend1 tend2 t p HS HW Hb). lia.
 Qed.
 Print Assumptions C05_past_now.
+
+Theorem C05_binary_merge :
+  forall (VS : Val) (f : V -> V -> V) (s1 s2 : dsig),
+    dsorted s1 -> dsorted s2 -> s1 <> [] -> s2 <> [] ->
+    let F := Z.min (lastT s1) (lastT s2) in
+    let t0 := Z.max (start s1) (start s2) in
+    exists out la r1 r2,
+      oisect f s1 s2 = Some (out, la, r1, r2) /\
+      wsorted (olist out la) /\
+      (forall a v, In (a, v) (olist out la) -> t0 <= a <= F) /\
+      (forall t, t0 <= t <= F -> den_opt (olist out la) t = Some (f (den s1 t) (den s2 t))) /\
+      suffix r1 s1 /\ suffix r2 s2 /\ r1 <> [] /\ r2 <> [] /\
+      (forall t, F <= t -> den_opt r1 t = den_opt s1 t) /\
+      (forall t, F <= t -> den_opt r2 t = den_opt s2 t).
+Proof. exact @oisect_correct. Qed.
+Print Assumptions C05_binary_merge.
+
+Theorem C05_binary_run :
+  forall (VS : Val) (f : V -> V -> V) (s1 s2 : dsig) (bs : list (dsig * dsig)),
+    dsorted s1 -> dsorted s2 -> s1 <> [] -> s2 <> [] ->
+    feeds [] [] bs s1 s2 ->
+    let F := Z.min (lastT s1) (lastT s2) in
+    let t0 := Z.max (start s1) (start s2) in
+    exists st outs,
+      bin_run f ostate0 bs = Some (st, outs) /\
+      wsorted (concat outs) /\
+      (forall a v, In (a, v) (concat outs) -> t0 <= a <= F) /\
+      (forall t, t0 <= t <= F -> den_opt (concat outs) t = Some (f (den s1 t) (den s2 t))).
+Proof. exact @bin_run_correct_rep. Qed.
+Print Assumptions C05_binary_run.
+
+Theorem C05_binary_chunking :
+  forall (VS : Val) (f : V -> V -> V) (s1 s2 : dsig) (bs bs' : list (dsig * dsig)),
+    dsorted s1 -> dsorted s2 -> s1 <> [] -> s2 <> [] ->
+    concat (map fst bs) = s1 -> concat (map snd bs) = s2 ->
+    concat (map fst bs') = s1 -> concat (map snd bs') = s2 ->
+    exists st outs st' outs',
+      bin_run f ostate0 bs = Some (st, outs) /\ bin_run f ostate0 bs' = Some (st', outs') /\
+      forall t, Z.max (start s1) (start s2) <= t <= Z.min (lastT s1) (lastT s2) ->
+                den_opt (concat outs) t = den_opt (concat outs') t.
+Proof. exact @bin_run_chunking. Qed.
+Print Assumptions C05_binary_chunking.
+
+(* two chunkings of the same signals (one sample at a time with a repeated boundary sample / everything at once): different
+   sample lists per call, the same step function *)
+Example C05_binary_nonvacuous :
+  let s1 : @dsig ExtZVal := [(0, Fin 3); (2, Fin 6); (5, Fin 4)] in
+  let s2 : @dsig ExtZVal := [(0, Fin 2); (3, Fin 5); (6, Fin 0)] in
+  let f := @vmin ExtZVal in
+  dsorted s1 /\ dsorted s2 /\
+  option_map snd (bin_run f ostate0 [(s1, s2)]) = Some [[(0, Fin 2); (3, Fin 5); (5, Fin 4)]] /\
+  option_map snd (bin_run f ostate0 [([(0, Fin 3)], [(0, Fin 2)]); ([(0, Fin 9); (2, Fin 6)], [(3, Fin 5)]); ([(5, Fin 4)], [(6, Fin 0)])])
+    = Some [[(0, Fin 2)]; [(2, Fin 2)]; [(3, Fin 5); (5, Fin 4)]].
+Proof. cbv zeta. repeat split; vm_compute; try reflexivity; auto. Qed.
 
 Example C05_nonvacuous :
   let p : @formula ExtZVal := Or (Once (Pred CGeq (Var 0) (Const (Fin 1)))) (OnceT 1 2 (Pred CLeq (Var 0) (Const (Fin 3)))) in
